@@ -343,13 +343,13 @@ PROPS = {
         "assumptions": EB_ASSUME,
     },
     "C03": eb_entry("auth.c", "C03",
-        "Every sequence of up to N letters (N = depth bound) from an 82-letter alphabet - version/login with correct, replayed, other-slot, off-by-one, wrong and short responses, every privileged command, raw login/data/ping, tun arrivals, +30 s/+61 s - from two source addresses and userids 0,1,5,128 is applied to the real server loop from four start states (source check on/off, fresh/established); after every letter every tun write, every positive answer (login accept, address, codec/option/fragment-size acknowledgement, probe data, tunnel payload, raw login/ping reply) and every change of a session's settings must be attributable to a slot for which the response to its current challenge was sent since its last VACK.",
+        "Every sequence of up to N letters (N = depth bound) from an 82-letter alphabet - version/login with correct, replayed, other-slot, off-by-one, wrong and short responses, every privileged command, raw login/data/ping, tun arrivals, +30 s/+61 s - from two source addresses and userids 0,1,5,128 is applied to the real server loop from eight start states (source check on/off, fresh/established, lazy mode with a held ping, IPv6 neighbours, server address in the middle of the pool, raw mode); after every letter every tun write, every positive answer (login accept, address, codec/option/fragment-size acknowledgement, probe data, tunnel payload, raw login/ping reply) and every change of a session's settings must be attributable to a slot for which the response to its current challenge was sent since its last VACK.",
         "One-directional oracle (never demands that a login be accepted). The model learns challenges from VACK answers like a client. Answers are attributed by the question they echo. Password and challenge values are fixed (C19 covers the formula for all inputs).",
         "non-trivial/distinct = distinct (letter kind, argument, reply class sequence) outcomes observed", 
         ["privileged_effects_by_logged_in_sessions", "logins_accepted", "tun_writes", "raw_logins_ok", "vacks"],
         ["--depth", "4"], ["--depth", "5"]),
     "C04": eb_entry("auth.c", "C04",
-        "Same search with a 70-letter alphabet that adds an IPv6 spoofer, tun packets for the server / an unassigned / an outside address and +5/+55/+61 s, from four start states (fresh; two logged-in sessions; one of them silent for 55 s; one in raw mode). (a) a request naming a slot from an address it is not bound to must be answered BADIP (raw: not at all), cause no other output, and leave the whole users[] record of that slot bit-identical; (b) every datagram caused by a tun packet for address X goes to the address bound to the live logged-in owner of X, nothing is emitted otherwise; (c) VACK never names a slot active within 60 s, a slot silent > 60 s is refused and a free slot is handed out.",
+        "Same search with a 70-letter alphabet that adds an IPv6 spoofer, tun packets for the server / an unassigned / an outside address and +5/+55/+61 s, from eight start states (fresh; two logged-in sessions; one of them silent for 55 s; one in raw mode; one in lazy mode with a held ping; IPv6 neighbours; server address in the middle of the pool; one in raw mode and silent for 55 s while the other pinged). (a) a request naming a slot from an address it is not bound to must be answered BADIP (raw: not at all), cause no other output, and leave the whole users[] record of that slot bit-identical; (b) every datagram caused by a tun packet for address X goes to the address bound to the live logged-in owner of X, nothing is emitted otherwise; (c) VACK never names a slot active within 60 s, a slot silent > 60 s is refused and a free slot is handed out.",
         "'Active' is taken in the narrow sense of the code (messages that refresh the 60-second timer); the model keeps a certain and a possible last-activity time so that exact repeats served from the answer cache (which do not refresh the timer) never cause an alarm. Source check on (default).",
         "non-trivial/distinct = distinct (letter kind, argument, reply class sequence) outcomes observed",
         ["spoof_checks", "refused_spoofs", "routing_checks", "vacks", "expired_refused"],
